@@ -4,7 +4,9 @@
 // and a fresh side branch B off H.  H' is served from the in-memory database, H and B from the store, all three hold
 // the same annotations, so every read endpoint must answer the same on all three (orderings only where the help text
 // promises one).  O3 (merge rules): every write is also applied to model.NJState (derived from the help text) and the
-// annotation is read back.  O2 (restart) lives elsewhere.
+// annotation is read back.  O2: one case in six reopens the datastore in-process (datastore.CloseReopenTest) in the middle
+// of the history and requires every read of the head to be the same before and after; the real process restart lives in
+// the child-process check.
 package c16
 
 import (
@@ -16,6 +18,7 @@ import (
 	"strings"
 	"testing"
 
+	"github.com/janelia-flyem/dvid/datastore"
 	dvidproto "github.com/janelia-flyem/dvid/datatype/common/proto"
 	pb "google.golang.org/protobuf/proto"
 	"pgregory.net/rapid"
@@ -386,6 +389,12 @@ func (e *exec) readBack(l *lineState, li int, id uint64, prefix string, u *model
 				return stats.Violf(sig, "field %q (%s): stamps were user=%q time=%q, now user=%q time=%q; %s", f, ex.Why, old.user, old.time, cur.user, cur.time, desc())
 			}
 		case model.StampChanged:
+			if bv, had := before[f]; had && siblings(bv.Raw, want[f].Raw) {
+				e.class("print-equal-sibling-update")
+				if old.hasUser && old.user != ex.User {
+					e.class("print-equal-sibling-update/by-different-user")
+				}
+			}
 			if !cur.hasUser || cur.user != ex.User {
 				return stats.Violf(prefix+"/wrong-user-stamp", "field %q (%s): %s_user=%q (present %v), want %q; %s", f, ex.Why, f, cur.user, cur.hasUser, ex.User, desc())
 			}
@@ -514,7 +523,7 @@ func (e *exec) run() error {
 	for i, op := range e.c.Ops {
 		what := fmt.Sprintf("op %d (%s)", i, op.Kind)
 		li := op.Line % 2
-		if op.Kind == "compare" {
+		if op.Kind == "compare" || op.Kind == "reopen" {
 			li = 0
 		}
 		if li == 1 {
@@ -702,6 +711,10 @@ func (e *exec) run() error {
 			}
 		case "compare":
 			if err := e.compare(*op.Cmp, what); err != nil {
+				return err
+			}
+		case "reopen":
+			if err := e.reopen(*op.Cmp, what); err != nil {
 				return err
 			}
 		default:
@@ -968,6 +981,77 @@ func (e *exec) checkSnapshots(what string) error {
 		}
 	}
 	return nil
+}
+
+// lexOrderDiffers: the ids' decimal strings (the store's key order) sort differently from their numeric order.
+func lexOrderDiffers(ids []uint64) bool {
+	for i := 1; i < len(ids); i++ { // ids ascending
+		if strconv.FormatUint(ids[i-1], 10) > strconv.FormatUint(ids[i], 10) {
+			return true
+		}
+	}
+	return false
+}
+
+// reopen emulates a restart in-process: every read of a comparison point is taken on the (uncommitted, in-memory) master
+// head, the datastore is closed and reopened with the upstream persistence-test helper datastore.CloseReopenTest()
+// (storage.Shutdown, stores reopened, metadata reloaded, every data instance decoded afresh and Initialize()d, i.e.
+// neuronjson rebuilds its in-memory head from the store with loadMemDB), and the same reads are taken again: a restart
+// changes nothing observable.  Orders are compared where the answer's order is a function of the content (keys,
+// keyrange, range/batch value lists, queries), not for all / fields (map iteration order).
+//
+// Faithfulness: CloseReopenTest does not restart the process, so package-level state survives; neuronjson keeps none
+// (its state hangs off the *Data values, which are replaced), the request handlers look instances up through the
+// reloaded manager.  No before/after difference was observed on the unchanged tree, so the comparison is unrestricted.
+func (e *exec) reopen(cmp njCompare, what string) error {
+	m := e.lines[0]
+	specs := e.buildSpecs(cmp)
+	before := make([]reading, len(specs))
+	for i, s := range specs {
+		r, err := e.read(m.leaf, s)
+		if err != nil {
+			return err
+		}
+		before[i] = r
+	}
+	datastore.CloseReopenTest()
+	e.class("reopen")
+	ids := m.st.IDs()
+	if len(ids) >= 2 {
+		e.class("reopen/>=2-bodies")
+	}
+	if lexOrderDiffers(ids) {
+		e.class("reopen/lexicographic!=numeric-ids")
+	}
+	orderMatters := map[string]bool{"keys": true, "keyrange": true, "keyrangevalues": true, "keyvalues": true, "query": true}
+	oracle := func() error {
+		for i, s := range specs {
+			r, err := e.read(m.leaf, s)
+			if err != nil {
+				return err
+			}
+			if s.ordered {
+				if ok, why := ascending(r.order); !ok {
+					return stats.Violf("C16/query/memory-path-not-ascending", "%s body %s at reopened head %s: %s (%s); %s", s.url, s.body, m.leaf, why, strings.Join(r.order, ","), what)
+				}
+			}
+			if err := e.modelCheck(s, r, "memory-after-reopen", m.leaf, what+" (after reopen)"); err != nil {
+				return err
+			}
+			b := before[i]
+			same := b.code == r.code && b.norm == r.norm
+			if same && orderMatters[s.name] && s.kind != "object" && strings.Join(b.order, ",") != strings.Join(r.order, ",") {
+				return stats.Violf("C16/"+s.name+"/order-differs-after-reopen", "%s %s body %s at head %s; %s; before: %s ; after reopen: %s ; model ids %v",
+					s.method, s.url, s.body, m.leaf, what, clip(b.raw.Body), clip(r.raw.Body), ids)
+			}
+			if !same {
+				return stats.Violf("C16/"+s.name+"/differs-after-reopen", "%s %s body %s at head %s; %s; before: %d %s ; after reopen: %d %s ; model ids %v",
+					s.method, s.url, s.body, m.leaf, what, b.code, clip(b.raw.Body), r.code, clip(r.raw.Body), ids)
+			}
+		}
+		return nil
+	}
+	return drive.WithDeepRetry(e.root, oracle)
 }
 
 // buildSpecs lists the reads of one comparison point.
@@ -1314,7 +1398,7 @@ func (e *exec) modelCheck(s readSpec, r reading, path, node, what string) error 
 
 // ---------------------------------------------------------------- generator
 
-var bodyPool = []uint64{1, 2, 3, 9, 10, 11, 25, 100, 300, 2010, 9007199254740993, 18446744073709551615}
+var bodyPool = []uint64{1, 2, 3, 5, 9, 10, 11, 25, 30, 100, 200, 300, 1000, 2010, 9007199254740993, 18446744073709551615}
 var fieldNames = []string{"a", "b", "c", "n", "type"}
 var users = []string{"alice", "bob", "carol"}
 var sentinelTimes = []string{"2020-01-01T00:00:00Z", "2019-05-05T05:05:05-04:00"}
@@ -1325,6 +1409,32 @@ var floatVals = []string{`0.5`, `-1.25`, `2.5e-3`, `6.25e-2`}
 var integralFloatVals = []string{`3.0`, `1e3`, `1e21`, `[1.0,2]`, `{"x":2.0}`, `23.0`, `[3.0]`, `[2.0,1000]`}
 var otherVals = []string{`true`, `false`, `[]`, `[1,2,3]`, `[9007199254740993]`, `["a","b"]`, `["ab"]`, `[1,"a"]`, `[[1],[2]]`, `[1.5,2.5]`, `[true,false]`,
 	`{}`, `{"x":1}`, `{"x":{"y":[1,"z"]}}`, `{"k":"v","j":null}`}
+
+// print-equal siblings: different JSON values whose Go renderings (fmt.Sprint of the decoded value) coincide.  A change
+// between siblings is a change of the field's value, so the stamps must move to the writer.
+var siblingFamilies = [][]string{
+	{`12`, `"12"`}, {`23`, `"23"`}, {`-5`, `"-5"`}, {`0.5`, `"0.5"`}, {`true`, `"true"`},
+	{`["a b"]`, `["a","b"]`, `"[a b]"`},
+	{`[1,2]`, `"[1 2]"`, `["1","2"]`, `[1,"2"]`},
+	{`{"x":1}`, `{"x":"1"}`, `"map[x:1]"`},
+	{`[]`, `"[]"`}, {`{}`, `"map[]"`},
+}
+
+var siblingOf = func() map[string]int {
+	m := map[string]int{}
+	for i, f := range siblingFamilies {
+		for _, v := range f {
+			m[v] = i
+		}
+	}
+	return m
+}()
+
+func siblings(a, b string) bool {
+	fa, oka := siblingOf[a]
+	fb, okb := siblingOf[b]
+	return oka && okb && fa == fb && a != b
+}
 
 type genCtx struct {
 	t             *rapid.T
@@ -1353,6 +1463,18 @@ func (g *genCtx) value1(field string, body uint64) string {
 	if prev, ok := g.last[key]; ok && rapid.IntRange(0, 3).Draw(t, "repeat") == 0 {
 		return prev
 	}
+	if prev, ok := g.last[key]; ok && field != "n" {
+		if fam, isFam := siblingOf[prev]; isFam && rapid.IntRange(0, 2).Draw(t, "sibling") > 0 {
+			// the next value of a field is often a print-equal sibling of its current one
+			var others []string
+			for _, v := range siblingFamilies[fam] {
+				if v != prev {
+					others = append(others, v)
+				}
+			}
+			return rapid.SampledFrom(others).Draw(t, "sib")
+		}
+	}
 	if field == "n" {
 		switch rapid.IntRange(0, 5).Draw(t, "nkind") {
 		case 0:
@@ -1364,7 +1486,10 @@ func (g *genCtx) value1(field string, body uint64) string {
 		}
 		return rapid.SampledFrom(intVals).Draw(t, "nint")
 	}
-	switch rapid.IntRange(0, 9).Draw(t, "vkind") {
+	switch rapid.IntRange(0, 12).Draw(t, "vkind") {
+	case 10, 11, 12:
+		fam := rapid.SampledFrom(siblingFamilies).Draw(t, "fam")
+		return rapid.SampledFrom(fam).Draw(t, "fammember")
 	case 0, 1, 2:
 		return rapid.SampledFrom(strVals).Draw(t, "s")
 	case 3, 4:
@@ -1596,14 +1721,65 @@ func genCase(t *rapid.T) njCase {
 		stats.Excluded(sigKeyrangeValues)
 	}
 	// pool of body ids of this case: few, so that bodies are updated repeatedly
+	// ... and of at least two different digit counts, so that the store's key order (decimal strings) differs from the numeric one
 	perm := rapid.Permutation(bodyPool).Draw(t, "poolperm")
-	c.Pool = append([]uint64(nil), perm[:rapid.IntRange(2, 5).Draw(t, "npool")]...)
+	npool := rapid.IntRange(2, 5).Draw(t, "npool")
+	c.Pool = []uint64{perm[0]}
+	second := -1
+	for i, id := range perm[1:] {
+		pair := []uint64{perm[0], id}
+		if id < perm[0] {
+			pair = []uint64{id, perm[0]}
+		}
+		if lexOrderDiffers(pair) {
+			second = i
+			break
+		}
+	}
+	for i, id := range perm[1:] {
+		if (second < 0 && len(strconv.FormatUint(id, 10)) != len(strconv.FormatUint(perm[0], 10))) || i == second {
+			c.Pool = append(c.Pool, id)
+			perm = append(append([]uint64{}, perm[1:i+1]...), perm[i+2:]...)
+			break
+		}
+	}
+	c.Pool = append(c.Pool, perm[:npool-2]...)
 	g.pool = c.Pool
 	nops := rapid.IntRange(4, 20).Draw(t, "nops")
 	focus := c.Pool[0] // most writes go to one body so that >=2 partial updates precede a null-delete / replace
 	hasNullMaster := false
 	sideSeen := false
+	// one case in six restarts the server once in the second half of the history (the reopen re-initialises every
+	// instance of the test store, so it is kept to at most one per case); usually two bodies whose ids sort
+	// differently as strings and as numbers are written just before it
+	reopenAt := -1
+	if rapid.IntRange(0, 5).Draw(t, "withreopen") == 0 {
+		reopenAt = rapid.IntRange(nops/2, nops-1).Draw(t, "reopenat")
+	}
 	for i := 0; i < nops; i++ {
+		if i == reopenAt {
+			g.line = 0
+			if rapid.IntRange(0, 2).Draw(t, "reopenseed") > 0 {
+				seed := njOp{Kind: "postkvs", User: rapid.SampledFrom(users).Draw(t, "seeduser")}
+				for _, b := range c.Pool[:2] {
+					u := g.update(b, false)
+					u.Replace, u.Cond, u.User = false, nil, seed.User
+					if len(u.Fields) == 0 {
+						u.Fields = []model.NJField{{Name: "a", Val: `"ab"`}}
+						g.last[fmt.Sprintf("%d/%d/%s", g.line, b, "a")] = `"ab"`
+					}
+					for _, f := range u.Fields {
+						if f.Val == "null" {
+							hasNullMaster = true
+						}
+					}
+					seed.KVs = append(seed.KVs, u)
+				}
+				c.Ops = append(c.Ops, seed)
+			}
+			cs := g.compareSpec(noQueryFields, needSub, needEq)
+			c.Ops = append(c.Ops, njOp{Kind: "reopen", Cmp: &cs})
+		}
 		kind := rapid.SampledFrom([]string{"post", "post", "post", "post", "post", "post", "post", "postkvs", "delete", "advance", "compare", "schema", "schemadel"}).Draw(t, "kind")
 		op := njOp{Kind: kind, User: rapid.SampledFrom(users).Draw(t, "opuser")}
 		if rapid.IntRange(0, 5).Draw(t, "side") == 0 {
@@ -1665,7 +1841,7 @@ func genCase(t *rapid.T) njCase {
 			if kind == "schemadel" && g.noSchDel && op.Schema == "json_schema" {
 				op.Schema = "schema"
 			}
-		case "compare":
+		case "compare", "reopen":
 			cs := g.compareSpec(noQueryFields, needSub, needEq)
 			op.Cmp = &cs
 		}
@@ -1742,7 +1918,9 @@ func caseClasses(c njCase, e *exec) []string {
 	for _, op := range c.Ops {
 		if op.Cmp != nil {
 			scan(*op.Cmp)
-			cls = append(cls, "compare/mid-history")
+			if op.Kind == "compare" {
+				cls = append(cls, "compare/mid-history")
+			}
 		}
 		ups := op.KVs
 		if op.Upd != nil {
